@@ -121,6 +121,8 @@ def expected(desc, fmt):
             out["attr_defs"][d["name"]] = dd
         if "net" in env["attributes"]:
             out["net_attributes"] = {k: attr_expected(defs, k, v) for k, v in desc["net_attributes"].items()}
+    if env.get("value_tables"):
+        out["value_tables"] = {n: dict(t) for n, t in desc.get("value_tables", {}).items()}
     out["frames"] = {}
     for fr in desc["frames"]:
         f = dict(name=fr["name"], length=fr["length"])
@@ -209,6 +211,8 @@ def observed(db, desc, fmt):
                 out["attr_defs"][k] = o
         if "net" in env["attributes"]:
             out["net_attributes"] = {k: attr_observed(defs, k, v) for k, v in db.attributes.items() if k not in own["net"]}
+    if env.get("value_tables"):
+        out["value_tables"] = {n: {int(k): v for k, v in t.items()} for n, t in db.value_tables.items()}
     out["frames"] = {}
     for fr in db.frames:
         f = dict(name=fr.name, length=fr.size)
